@@ -12,6 +12,11 @@ import common
 from common import hexb
 
 
+# the errno a would-block is reported with: EAGAIN on POSIX; on Windows a non-blocking socket reports WSAEWOULDBLOCK
+# (10035), which is what `errno.EWOULDBLOCK` is there, while `errno.EAGAIN` stays 11
+WOULD_BLOCK = [errno.EAGAIN]
+
+
 class Stop(Exception):
     pass
 
@@ -112,13 +117,13 @@ class FakeSocket:
             # 'x' = reset; 'x<errno>' = that errno (OSError picks the subclass Python would raise for it)
             raise OSError(int(r[1:]) if len(r) > 1 else errno.ECONNRESET, 'scripted error')
         if r == 'a':
-            raise BlockingIOError(errno.EAGAIN, 'scripted eagain')
+            raise BlockingIOError(WOULD_BLOCK[0], 'scripted would-block')
         k = max(int(r[1:]), 1)
         env = self.env
         if not env.pending:
             if env.eof_in:
                 return b''
-            raise BlockingIOError(errno.EAGAIN, 'nothing pending')
+            raise BlockingIOError(WOULD_BLOCK[0], 'nothing pending')
         out = env.pending[:k]
         env.pending = env.pending[k:]
         env.consumed += out
@@ -134,7 +139,7 @@ class FakeSocket:
         if r == 'p':
             raise BrokenPipeError(errno.EPIPE, 'scripted epipe')
         if r == 'a':
-            raise BlockingIOError(errno.EAGAIN, 'scripted eagain')
+            raise BlockingIOError(WOULD_BLOCK[0], 'scripted would-block')
         k = min(int(r[1:]), len(b))
         self.env.delivered += bytes(b[:k])
         self.log.append(('data', k))
@@ -172,7 +177,7 @@ class DummyFile:
 
     def write(self, b):
         # the pipe takes nothing right now: a real Mux.flush leaves the queue as it is (the simulator moves frames)
-        raise BlockingIOError(errno.EAGAIN, 'pipe full')
+        raise BlockingIOError(WOULD_BLOCK[0], 'pipe full')
 
     def flush(self):
         pass
@@ -249,8 +254,10 @@ class RecordingStream:
 
 
 class RealTunnel:
-    def __init__(self, maxchan=65535, bufsize=32768, chani=0, extra_occ=(), verbose=0):
-        """verbose: the verbosity both processes run at (0-3); 10 + v = verbosity v with a stderr that is gone.
+    def __init__(self, maxchan=65535, bufsize=32768, chani=0, extra_occ=(), verbose=0, platform=0):
+        """platform: 0 = POSIX errno numbering; 1 = the numbering of a platform where a would-block on a socket is
+        reported as errno.EWOULDBLOCK = 10035 and differs from errno.EAGAIN (Windows).
+        verbose: the verbosity both processes run at (0-3); 10 + v = verbosity v with a stderr that is gone.
         Whatever the verbosity and whatever happens to the diagnostics, the behaviour must be the same, and nothing but
         the Mux may write to the process's stdout (in the server that is the tunnel itself)."""
         import sshuttle.ssnet as ssnet
@@ -261,6 +268,11 @@ class RealTunnel:
         self.saved = dict(max=ssnet.MAX_CHANNEL, buf=ssnet.LATENCY_BUFFER_SIZE, socket=ssnet.socket,
                           nbio=ssnet.set_non_blocking_io, select=ssnet.select, ctime=client.time.time,
                           stderr=sys.stderr, stdout=sys.stdout, verbose=helpers.verbose)
+        self.saved['ewouldblock'] = errno.EWOULDBLOCK
+        self.saved['wb'] = WOULD_BLOCK[0]
+        if platform == 1:
+            errno.EWOULDBLOCK = 10035
+            WOULD_BLOCK[0] = 10035
         helpers.verbose = verbose % 10
         sys.stderr = BrokenStream() if verbose >= 10 else io.StringIO()
         self.stdout_rec = RecordingStream()
@@ -352,6 +364,8 @@ class RealTunnel:
         sys.stderr = self.saved['stderr']
         sys.stdout = self.saved['stdout']
         self.helpers.verbose = self.saved['verbose']
+        errno.EWOULDBLOCK = self.saved['ewouldblock']
+        WOULD_BLOCK[0] = self.saved['wb']
         client.dnsreqs.clear()
         client.udp_by_src.clear()
 
@@ -722,9 +736,9 @@ def canon_model_line(line):
 class Script:
     """Runs a list of step tuples on the real tunnel, producing model input + real output lines."""
 
-    def __init__(self, maxchan=65535, bufsize=32768, chani=0, extra_occ=(), verbose=0):
-        self.cfg = (maxchan, bufsize, chani, tuple(extra_occ), verbose)
-        self.t = RealTunnel(maxchan, bufsize, chani, extra_occ, verbose)
+    def __init__(self, maxchan=65535, bufsize=32768, chani=0, extra_occ=(), verbose=0, platform=0):
+        self.cfg = (maxchan, bufsize, chani, tuple(extra_occ), verbose, platform)
+        self.t = RealTunnel(maxchan, bufsize, chani, extra_occ, verbose, platform)
         self.ins = ['init %d %d %d %s' % (maxchan, bufsize, chani, ' '.join(str(c) for c in extra_occ))]
         self.ins[0] = self.ins[0].rstrip()
         self.outs = [self.t.show()]
